@@ -126,7 +126,12 @@ func (t *Thread) RunContinuation(c Cont) (err error) {
 // still allow cleaning up the to-be-closed variables.  If this is put on the
 // resume channel of a running thread, yield will cause a panic in the goroutine
 // and that will be caught in the defer() clause below.
-type threadClose struct{}
+type threadClose struct {
+	// The error in flight in the thread being closed, if it was suspended inside a
+	// __close handler that was running because of an error: the remaining
+	// handlers still get it.
+	err error
+}
 
 //
 // Coroutine management
@@ -148,11 +153,16 @@ func (t *Thread) Start(c Callable) {
 		defer func() {
 			r := recover()
 			if r != nil {
-				switch r.(type) {
+				switch x := r.(type) {
 				case ContextTerminationError:
 				case threadClose:
 					// This means we want to close the coroutine, so no panic!
 					r = nil
+					// The coroutine did not return anything.
+					args = nil
+					if x.err != nil {
+						err = x.err
+					}
 				default:
 					panic(r)
 				}
@@ -324,10 +334,13 @@ func (t *Thread) closePending(err error) (error, interface{}) {
 func (t *Thread) closePendingProtected(err error) (closeErr error, exception interface{}) {
 	defer func() {
 		if r := recover(); r != nil {
-			switch r.(type) {
+			switch x := r.(type) {
 			case ContextTerminationError:
 				t.closeStack.truncate(0)
 			case threadClose:
+				if x.err != nil {
+					err = x.err
+				}
 			default:
 				panic(r)
 			}
@@ -449,6 +462,19 @@ func (s *closeStack) truncate(h int) {
 // context of the given continuation c and feeding them with the given error.
 func (t *Thread) cleanupCloseStack(c Cont, h int, err error) error {
 	closeStack := &t.closeStack
+	if closeStack.size() <= h {
+		return err
+	}
+	// If the thread is closed while it is suspended inside one of the handlers,
+	// the error currently in flight remains so for the handlers still to run.
+	defer func() {
+		if r := recover(); r != nil {
+			if tc, ok := r.(threadClose); ok && tc.err == nil {
+				r = threadClose{err: err}
+			}
+			panic(r)
+		}
+	}()
 	for closeStack.size() > h {
 		v, _ := closeStack.pop()
 		if Truth(v) {
